@@ -45,6 +45,12 @@ CHECKS = {
     "C13": dict(
         text="Coq theorem C13_safe over a line-granularity transition system of thread_start / thread_stop / _thread_loop (controller pc, stop flag, handle, worker incarnations incl. a leaked one, monitor): for every start/stop sequence and every interleaving of any length the target never runs after stop returned and before the next start, at most one incarnation is alive, and after stop returns none is; obtained from an in-kernel closed-set computation (39 abstract states) lifted by the proved lemma closed_safe; start/stop no-ops, restartability, loop shape (init, target*, final) and progress as separate theorems. Tie: thread.py skeletons pinned (the model is its line structure) + exploration of the real ThreadCommon under a 10 us switch interval judged by the same monitor; heavy scenarios on drift.",
         design="3/C13", technique="Coq proof (finite closed set computed in the kernel, lifted to all traces by a proved lemma) + pinned source skeleton + monitored exploration of real threads"),
+    "C09": dict(
+        text="Coq theorems over a state-machine model of the high-level handler (connected / stream flags, thread handles, comm state, device streaming / enabled): invariant over every finite call sequence from every initial device state; connect and disconnect idempotent; every call other than connect made while disconnected leaves the whole state (device included) unchanged; after disconnect the device has been told to stop and to disable every channel, no description, no thread handle. Tie: real NxscopeHandler against the reference device, ALL call sequences up to length 3/4 plus random longer ones, result class / flags / live threads / device streaming compared after every call; same static description on every reconnect. PARTIAL: 'no library thread left alive' is proved as 'handles joined and cleared', observed with threading.enumerate().",
+        design="3/C09", technique="Coq proof (invariant over call histories) + exhaustive short-sequence differential on the real handler"),
+    "C10": dict(
+        text="Coq theorems: connect is defined by structural recursion on the regenerated retry counters (so it terminates by construction) and for EVERY oracle (silent / wrong frame / undecodable frame at any request) returns after at most 1 + A(1 + chmax R) requests and time-outs with nothing left running unless it succeeded (C10_connect_bounded); the receive routine always returns for every buffer and read sequence (from the C03 refinement: never out of fuel), so the stop flag is observed; once the flag is set the worker finishes within three steps and the join is enabled (C13 model). PARTIAL: real joins, GIL scheduling and wall-clock bounds are covered by the fault-enumeration run (every handshake point x fault kind x once/from-then-on, header residues 1..3 bytes, noise), not proved.",
+        design="3/C10", technique="Coq proof (structural termination + explicit bounds for all oracles) + fault enumeration on the real handler", category="proof"),
 }
 PENDING = {}
 
